@@ -36,7 +36,7 @@ EXPLANATION = ("Theorems in Dist: a RandomDictator round elects c with probabili
                "1-1/(c-1) mixture of proportional-to-squares and RandomDictator; sequential uniform picks give each of "
                "the k! orders of a tied set probability 1/k!.")
 
-N_QUICK, N_THOROUGH = 1000, 12000
+N_QUICK, N_THOROUGH = 1000, 36000
 
 
 def cases(rng, tier, shard, nshards, phase):
